@@ -1,4 +1,5 @@
 import Driver.C08
+import Driver.C01
 open ImmuModel
 
 namespace Driver
@@ -9,6 +10,7 @@ structure State where
 def step (st : State) (line : String) : State × String :=
   match toks line with
   | "c08" :: rest => let (s, o) := C08.step st.c08 rest; ({ st with c08 := s }, o)
+  | "c01" :: rest => (st, C01.step rest)
   | ["sha", h] => (st, match Bytes.ofHex h with | some b => Bytes.toHex (Sha256.sum b) | none => "bad-op")
   | _ => (st, "bad-op")
 
